@@ -10,6 +10,8 @@ package main
 //                     byte8  if v.F >= (1 << 8) {...}; data[lo] = uint8(v.F)
 //                     le     binary.LittleEndian.PutUintN(data[lo:hi], v.F | v.GetF())  with N/8 == hi-lo
 //                     zero   for i := lo; i < hi; i++ { data[i] = 0 }
+//                     mbz    if len(v.F) != 0 { if err := checkMbz("..", v.F, lo, hi); err != nil { return err } }
+//                            (check only: the range need not lie inside the output)
 //                     any other statement makes the extraction fail (never defaulted).
 //   SizeofVmsaCheck   the bound of the leading `if len(data) < SizeofVmsa` check
 //   VmsaTemplate      sev.VmsaV1 parsed with the repository's own proto type; non-zero scalar fields by
@@ -93,6 +95,33 @@ func xc04VmsaLayout(repo string) ([]xc04Entry, uint64, error) {
 						return nil, 0, fmt.Errorf("%s: %v", pos, err)
 					}
 					sizeCheck = v
+					continue
+				}
+				// len(v.F) != 0 { if err := checkMbz("..", v.F, lo, hi); err != nil { return err } }
+				if c, ok := be.X.(*ast.CallExpr); ok && calleeName(c) == "len" && be.Op == token.NEQ && len(c.Args) == 1 {
+					if z, err := env.eval(be.Y, 0); err != nil || z != 0 || s.Else != nil || len(s.Body.List) != 1 {
+						return nil, 0, fmt.Errorf("%s: unrecognised length guard %s", pos, exprSrc(s.Cond))
+					}
+					inner, ok := s.Body.List[0].(*ast.IfStmt)
+					if !ok || inner.Else != nil || len(inner.Body.List) != 1 {
+						return nil, 0, fmt.Errorf("%s: unrecognised body of the length guard", pos)
+					}
+					if _, ok := inner.Body.List[0].(*ast.ReturnStmt); !ok {
+						return nil, 0, fmt.Errorf("%s: the guarded check does not return its error", pos)
+					}
+					ic := xc04InitCall(inner)
+					if ic == nil || calleeName(ic) != "checkMbz" || len(ic.Args) != 4 {
+						return nil, 0, fmt.Errorf("%s: length guard without checkMbz", pos)
+					}
+					if xc04Field(ic.Args[1]) != xc04Field(c.Args[0]) {
+						return nil, 0, fmt.Errorf("%s: checkMbz on %s guarded by the length of %s", pos, exprSrc(ic.Args[1]), exprSrc(c.Args[0]))
+					}
+					lo, err1 := env.eval(ic.Args[2], 0)
+					hi, err2 := env.eval(ic.Args[3], 0)
+					if err1 != nil || err2 != nil {
+						return nil, 0, fmt.Errorf("%s: non-constant range", pos)
+					}
+					out = append(out, xc04Entry{"mbz", lo, hi, xc04Field(ic.Args[1])})
 					continue
 				}
 				// v.F >= (1 << 8)
